@@ -383,6 +383,22 @@ def random_trace(rng, nsteps, focus=None):
         scenario = [{"op": "group_by", "x": 1, "cols": ["k"]},
                     {"op": "gmodify", "x": 1, "name": rng.choice(["x", "a"]), "flen": rng.choice([1, 2, 2]),
                      "vals": [2 * rng.randrange(2) for _ in range(3)]}]
+    elif focus and pal is not gamma.STR_FIXED and rng.random() < 0.25:
+        # call -> in-place write into a key column of an operand -> the same call again (whatever the call remembered
+        # about its operands must not survive the write)
+        first = {"sort": {"op": "sort", "x": 1, "a": {"op": "sort", "keys": ["k"], "dirs": [1]}},
+                 "unique": {"op": "unique", "x": 1, "a": {"op": "unique", "cols": ["k"]}},
+                 "drop_na": {"op": "drop_na", "x": 1, "a": {"op": "drop_na", "cols": ["k"]}}}
+        for j in ("left", "inner", "semi", "anti", "full"):
+            first[j] = {"op": j, "x": 1, "o": 2}
+        cand = [op for op in first if op in focus]
+        nk = len(init[0]["cell"]["k"])
+        if cand and nk >= 2 and len(init[1]["cell"]["k"]) >= 1:
+            ev = first[rng.choice(cand)]
+            tgt = 2 if ("o" in ev and rng.random() < 0.6) else 1
+            nt = len(init[tgt - 1]["cell"]["k"])
+            scenario = [ev, {"op": "poke", "x": tgt, "name": "k", "i": rng.randint(1, nt), "v": 2 * rng.randrange(min(3, len(pal.values)))},
+                        json.loads(json.dumps(ev))]
     s = Session(pal, init)
     tr = {"palette": pal.name, "init": init, "steps": []}
     for e in (scenario or []):
@@ -412,7 +428,7 @@ def random_trace(rng, nsteps, focus=None):
             else:
                 e = {k: v for k, v in ev.items() if k != "obs"}
                 repeat = None
-        elif e["op"] in TRANSFORMING and e["op"] not in ("deepcopy", "gmodify") and rng.random() < 0.3:
+        elif e["op"] in TRANSFORMING and e["op"] not in ("deepcopy", "gmodify") and rng.random() < (0.45 if focus else 0.3):
             repeat = (e, 0)
         # a grouped receiver is the interesting history for group-sensitive internals: follow a group_by
         # half of the time with a transforming call (joins first) on the frame that was just grouped
